@@ -1379,3 +1379,75 @@ M("N64", "done(): InMemoryBuild arm restructured with an `up_to_date` bool",
                     return Ok(());
                 }""")],
   {})
+M("M90", "Txtpp::run no longer sets has_error after a failure (Drop spins forever: the failed result was counted twice)",
+  [(EX, """            runtime.progress.has_error = true;
+        }""", """        }""")],
+  {"C18": ["R18.4"]})
+M("M91", "Drop ignores has_error when draining",
+  [(EX, "                    if self.progress.is_done() || self.progress.has_error {", "                    if self.progress.is_done() {")],
+  {"C18": ["R18.4"]})
+M("M92", "coordinator waits with a blocking recv() when the channel is empty",
+  [(EX, """                    // no data available, wait for a bit
+                    std::thread::sleep(std::time::Duration::from_millis(100));
+                    continue;
+                }
+                Err(TryRecvError::Disconnected) => {
+                    // workers are disconnected unexpectedly""", """                    // no data available, wait for the next result
+                    if let Ok(extra) = self.recv.recv() {
+                        let _ = extra;
+                    }
+                    continue;
+                }
+                Err(TryRecvError::Disconnected) => {
+                    // workers are disconnected unexpectedly""")],
+  {"C18": ["R18.4"]})
+M("N65", "format_directive_output as an explicit loop with a `first` flag (correct separator placement)",
+  [(PP, """        let mut output = raw_output
+            .map(|s| format!("{whitespaces}{line}", line = s.as_ref()))
+            .collect::<Vec<_>>()
+            .join(self.context.line_ending);""", """        let mut output = String::new();
+        let mut first = true;
+        for line in raw_output {
+            if !first {
+                output.push_str(self.context.line_ending);
+            }
+            first = false;
+            output.push_str(whitespaces);
+            output.push_str(line.as_ref());
+        }""")],
+  {})
+M("M93", "format_directive_output as a loop that places separators by testing the accumulated output (leading blank lines vanish; seeded by an independent agent: C01)",
+  [(PP, """        let mut output = raw_output
+            .map(|s| format!("{whitespaces}{line}", line = s.as_ref()))
+            .collect::<Vec<_>>()
+            .join(self.context.line_ending);""", """        let mut output = String::new();
+        for line in raw_output {
+            if !output.is_empty() {
+                output.push_str(self.context.line_ending);
+            }
+            output.push_str(whitespaces);
+            output.push_str(line.as_ref());
+        }""")],
+  {"C12": ["R12.3"]})
+M("N66", "add_line: continuation argument via strip_prefix forms (prefix once / spaces) instead of slicing",
+  [(DADD, """            if line.starts_with(&self.prefix) || line.starts_with(&" ".repeat(self.prefix.len())) {
+                self.args.push(
+                    line[self.prefix.len()..]
+                        .trim_end_matches(char::is_whitespace)
+                        .to_string(),
+                );
+                return Ok(());
+            }""", """            let arg = line
+                .strip_prefix(self.prefix.as_str())
+                .or_else(|| line.strip_prefix(" ".repeat(self.prefix.len()).as_str()));
+            if let Some(arg) = arg {
+                self.args
+                    .push(arg.trim_end_matches(char::is_whitespace).to_string());
+                return Ok(());
+            }""")],
+  {})
+M("M94", "add_line strips the prefix repeatedly (trim_start_matches): escaped lines starting with the prefix lose characters (seeded by an independent agent: C16)",
+  [(DADD, """                    line[self.prefix.len()..]
+                        .trim_end_matches(char::is_whitespace)""", """                    line.trim_start_matches(self.prefix.as_str())
+                        .trim_end_matches(char::is_whitespace)""")],
+  {"C15": ["R15.5"]})
